@@ -342,11 +342,11 @@ class NodeSpec(CaseSpec):
 
     def cases(self, tier, rng):
         if tier == "thorough":
-            ex = nc.gen_exhaustive(self.cls, 3, 4) + nc.gen_exhaustive(self.cls, 2, 5, prefix="y")
-            rnd = nc.gen_random(self.cls, rng, 3000)
+            ex = nc.gen_exhaustive(self.cls, 3, 4) + nc.gen_exhaustive(self.cls, 2, 6, prefix="y")
+            rnd = nc.gen_random(self.cls, rng, 12000)
         else:
-            ex = nc.gen_exhaustive(self.cls, 3, 2) + nc.gen_exhaustive(self.cls, 2, 3, prefix="y")
-            rnd = nc.gen_random(self.cls, rng, 120, minlen=60, maxlen=200)
+            ex = nc.gen_exhaustive(self.cls, 3, 3)[::2] + nc.gen_exhaustive(self.cls, 3, 2) + nc.gen_exhaustive(self.cls, 2, 3, prefix="y")
+            rnd = nc.gen_random(self.cls, rng, 200, minlen=60, maxlen=250)
         return ex + rnd
 
     def exhaustive(self, tier):
@@ -428,12 +428,14 @@ class SearchSpec(CaseSpec):
         for cls in self.classes:
             if tier == "thorough":
                 out += sc.gen_cases(cls, rng, tier, self.algos, self.whats, level=self.level_t, n_small=3, m_small=3,
-                                    nrandom=400, vals_variants=self.vals_variants)
+                                    nrandom=2500, vals_variants=self.vals_variants)
                 out += sc.gen_cases(cls, rng, tier, self.algos, self.whats, level=1, n_small=4, m_small=3, nrandom=0,
                                     prefix="t", vals_variants=False)
+                out += sc.gen_cases(cls, rng, tier, self.algos, self.whats, level=0, n_small=3, m_small=4, nrandom=0,
+                                    prefix="v", vals_variants=False)
             else:
                 out += sc.gen_cases(cls, rng, tier, self.algos, self.whats, level=self.level_q, n_small=3, m_small=2,
-                                    nrandom=40, vals_variants=self.vals_variants)
+                                    nrandom=80, vals_variants=self.vals_variants)
                 out += sc.gen_cases(cls, rng, tier, self.algos, self.whats, level=0, n_small=3, m_small=3, nrandom=0, prefix="m")
         return out
 
